@@ -225,6 +225,9 @@ class Executor2(Executor):
         return Executor.set_attr(self, st, obj, attr, val, lineno)
 
     def coerce(self, v, f, what):
+        if f.kind == "lenlist" and v.kind in ("emptylist", "list_lit"):
+            # a list display bound to a local declared length-only: its length is all that is kept
+            return SV("lenlist", z3.IntVal(0 if v.kind == "emptylist" else len(v.t)), x=None)
         if v.kind == "opaque":
             nv = self.fresh(f.kind, "co", cls=f.cls, opt=True)
             if f.kind == "ref":
